@@ -175,7 +175,7 @@ def load_ledger(spec, copy=0):
     the postings of transactions carry meta=None, as the postings of pad and
     summarization entries and of programmatically built ledgers do."""
     text = render_ledger(spec)
-    key = (text, copy, bool(spec.get('nometa')))
+    key = (text, copy, bool(spec.get('nometa')), spec.get('dupobj'))
     hit = _LEDGER_CACHE.get(key)
     if hit is None:
         if len(_LEDGER_CACHE) > 64:
@@ -185,6 +185,19 @@ def load_ledger(spec, copy=0):
             from beancount.core import data
             entries = [e._replace(postings=[p._replace(meta=None) for p in e.postings])
                        if isinstance(e, data.Transaction) else e for e in entries]
+        if spec.get('dupobj'):
+            # a programmatically assembled ledger may hold the very same (immutable) Transaction
+            # object more than once, e.g. entries + [rent, rent]
+            from beancount.core import data
+            out = []
+            n = 0
+            for e in entries:
+                out.append(e)
+                if isinstance(e, data.Transaction):
+                    n += 1
+                    if n % spec['dupobj'] == 0:
+                        out.append(e)
+            entries = out
         hit = _LEDGER_CACHE[key] = (entries, errors, options, repr(entries))
     return hit
 
@@ -303,10 +316,12 @@ class SimTable(tables.Table):
     def __iter__(self):
         sim = current()
         scan = sim.begin_scan(self.name)
-        for i, row in enumerate(self.rows):
-            sim.scan_point(scan, self.name, i)
-            yield row
-        sim.end_scan(scan, self.name)
+        try:
+            for i, row in enumerate(self.rows):
+                sim.scan_point(scan, self.name, i)
+                yield row
+        finally:
+            sim.end_scan(scan, self.name)
 
 
 class SimPostings(query_env.PostingsTable):
@@ -315,20 +330,24 @@ class SimPostings(query_env.PostingsTable):
     def __iter__(self):
         sim = current()
         scan = sim.begin_scan('postings')
-        for i, ctx in enumerate(super().__iter__()):
-            sim.scan_point(scan, 'postings', i)
-            yield ctx
-        sim.end_scan(scan, 'postings')
+        try:
+            for i, ctx in enumerate(super().__iter__()):
+                sim.scan_point(scan, 'postings', i)
+                yield ctx
+        finally:
+            sim.end_scan(scan, 'postings')
 
 
 class SimEntries(query_env.EntriesTable):
     def __iter__(self):
         sim = current()
         scan = sim.begin_scan('entries')
-        for i, ctx in enumerate(super().__iter__()):
-            sim.scan_point(scan, 'entries', i)
-            yield ctx
-        sim.end_scan(scan, 'entries')
+        try:
+            for i, ctx in enumerate(super().__iter__()):
+                sim.scan_point(scan, 'entries', i)
+                yield ctx
+        finally:
+            sim.end_scan(scan, 'entries')
 
 
 def make_connection(ledger_spec, table_specs=(), copy=0, sim_tables=True):
@@ -368,6 +387,9 @@ class Inert:
 
     def fault_point(self, k):
         pass
+
+    def current_rowno(self):
+        return None
 
 
 INERT = Inert()
@@ -452,6 +474,20 @@ class VerifFault(query_compile.EvalFunction):
         return self.operands[0](row)
 
 
+class VerifRowNo(query_compile.EvalFunction):
+    """verif_rowno(x): the index, in scan order, of the row the innermost open
+    scan of a wrapped table last delivered (x is ignored; it only keeps the call
+    from being folded)."""
+    __intypes__ = [types.Any]
+    pure = False
+
+    def __init__(self, context, operands):
+        super().__init__(context, operands, int)
+
+    def __call__(self, row):
+        return current().current_rowno()
+
+
 class VerifCYield(query_compile.EvalFunction):
     """verif_cyield(x, site): identity declared *pure*: with constant arguments the
     compiler folds it, i.e. calls it during compilation - a yield point in the
@@ -474,7 +510,7 @@ class VerifCYield(query_compile.EvalFunction):
 def _register_once():
     F = query_compile.FUNCTIONS
     for name, cls in (('verif_yield', VerifYield), ('verif_reenter', VerifReenter),
-                      ('verif_fault', VerifFault), ('verif_cyield', VerifCYield)):
+                      ('verif_fault', VerifFault), ('verif_cyield', VerifCYield), ('verif_rowno', VerifRowNo)):
         if not any(c.__name__ == cls.__name__ for c in F.get(name, ())):
             F[name].append(cls)
 
